@@ -6,7 +6,7 @@
     specification rejects. *)
 From Coq Require Import ZArith List Bool String.
 From Low Require Import Lib.Bits Lib.BitSeq Lib.Lex Lib.Bytes Lib.Val
-  Spec.Bmtree Spec.IndexSpec Model.BmtreePath Model.BmtreeIndex.
+  Spec.Bmtree Spec.IndexSpec Spec.ContractSpec Spec.FromStr32Spec Model.BmtreePath Model.BmtreeIndex Model.FromStr32.
 Import ListNotations.
 Open Scope string_scope.
 Open Scope Z_scope.
@@ -65,11 +65,142 @@ Definition op_strict (name : string) (dbg : bool) : opdef :=
            | _, _ => VBad end
        | _ => VBad end) |}.
 
+(** widening: RAW arguments (any int32 level mask, any uint64 word) against the [-tags debug] build
+    only.  The contracts must fire exactly outside the domain (Spec/ContractSpec.v); inside it the
+    result is the rank.  Args [T, w]. *)
+Definition c03_raw_dom (T w : Z) : bool :=
+  (- 2 ^ 31 <=? T) && (T <? 2 ^ 31) && (0 <=? w) && (w <? 2 ^ 64).
+
+Definition pairZ_eqb (a b : Z * Z) : bool := (fst a =? fst b) && (snd a =? snd b).
+
+Definition as_pairZ (v : val) : option (option (Z * Z)) :=
+  match v with
+  | VPanic => Some None
+  | VL [VZ a; VZ b] => Some (Some (a, b))
+  | _ => None
+  end.
+Definition as_optZ (v : val) : option (option Z) :=
+  match v with VPanic => Some None | VZ a => Some (Some a) | _ => None end.
+
+Definition op_raw_loose (name : string) : opdef :=
+  {| op_name := name;
+     op_run := fun a => match a with
+       | [VZ T; VZ w] =>
+           if c03_raw_dom T w then
+             match PathToIndexLoose_debug T w with Some p => vpairZ p | None => VPanic end
+           else VBad
+       | _ => VBad end;
+     op_spec := fun a obs => match a, as_pairZ obs with
+       | [VZ T; VZ w], Some o => expect_accepts pairZ_eqb (raw_loose_expect T w) o
+       | _, _ => false end |}.
+
+Definition op_raw_strict (name : string) : opdef :=
+  {| op_name := name;
+     op_run := fun a => match a with
+       | [VZ T; VZ w] =>
+           if c03_raw_dom T w then
+             match PathToIndex_debug T w with Some i => VZ i | None => VPanic end
+           else VBad
+       | _ => VBad end;
+     op_spec := fun a obs => match a, as_optZ obs with
+       | [VZ T; VZ w], Some o => expect_accepts Z.eqb (raw_strict_expect T w) o
+       | _, _ => false end |}.
+
+(** widening: parent and child in one case, args [T, q, b] with |q| < Height T.  Observation
+    [i, s, i', s'] = PathToIndexLoose of q and of q ++ [b].  The specification computes the parent's
+    pair from the enumerated / recursive rank and the child's pair from the parent's by the child rule
+    (left child: next index; right child: after the left subtree of T >> (|q|+1) stored nodes). *)
+Definition c03_child_spec (T : Z) (q : node) (b : bool) : val :=
+  let h := c03_h T in
+  let i := spec_rank T h q in
+  let s := Z.b2z (stored T q) in
+  VL [VZ i; VZ s;
+      VZ (i + s + (if b then T / 2 ^ (zlen q + 1) else 0));
+      VZ (Z.b2z (Z.testbit T (zlen q + 1)))].
+
+Definition op_child (name : string) (dbg : bool) : opdef :=
+  {| op_name := name;
+     op_run := fun a => match a with
+       | [T; q; VZ b] => match as_z T, c03_node q with
+           | Some T, Some q =>
+               let qb := (q ++ [negb (b =? 0)])%list in
+               if c03_dom T qb then
+                 let f := if dbg then PathToIndexLoose_debug else PathToIndexLoose in
+                 match f T (c03_word T q), f T (c03_word T qb) with
+                 | Some (i, s), Some (i', s') => VL [VZ i; VZ s; VZ i'; VZ s']
+                 | _, _ => VPanic end
+               else VBad
+           | _, _ => VBad end
+       | _ => VBad end;
+     op_spec := fun_spec (fun a => match a with
+       | [T; q; VZ b] => match as_z T, c03_node q with
+           | Some T, Some q => c03_child_spec T q (negb (b =? 0))
+           | _, _ => VBad end
+       | _ => VBad end) |}.
+
+(** widening (with C11): from a key to its index.  args [T, s, from]; the height is Height T; the
+    implementation computes PathToIndexLoose(T, PathOf(s, from, h)) (resp. PathToIndex when the node's
+    level is stored); the specification ranks the node spelled by the key's bits from .. from+h. *)
+Definition c03_key_dom (T : Z) (s : list Z) (from : Z) : bool :=
+  (1 <=? T) && (T <? 2 ^ 31) && (0 <=? from) && (from + Height T + 7 <? 2 ^ 31) && bytes_okb s.
+
+Definition c03_key_node (T : Z) (s : list Z) (from : Z) : node :=
+  firstn (Z.to_nat (clamp (8 * zlen s - from) 0 (Height T))) (skipn (Z.to_nat from) (msb_bits s)).
+
+Definition op_key_loose (name : string) (dbg : bool) : opdef :=
+  {| op_name := name;
+     op_run := fun a => match a with
+       | [VZ T; s; VZ from] => match as_zs s with
+           | Some s =>
+               if c03_key_dom T s from then
+                 match PathOf s from (Height T) with
+                 | Some p => match (if dbg then PathToIndexLoose_debug else PathToIndexLoose) T p with
+                             | Some r => vpairZ r | None => VPanic end
+                 | None => VPanic end
+               else VBad
+           | None => VBad end
+       | _ => VBad end;
+     op_spec := fun_spec (fun a => match a with
+       | [VZ T; s; VZ from] => match as_zs s with
+           | Some s => vpairZ (spec_loose T (c03_h T) (c03_key_node T s from))
+           | None => VBad end
+       | _ => VBad end) |}.
+
+Definition op_key_strict (name : string) (dbg : bool) : opdef :=
+  {| op_name := name;
+     op_run := fun a => match a with
+       | [VZ T; s; VZ from] => match as_zs s with
+           | Some s =>
+               if c03_key_dom T s from && stored T (c03_key_node T s from) then
+                 match PathOf s from (Height T) with
+                 | Some p => match (if dbg then PathToIndex_debug else PathToIndex) T p with
+                             | Some i => VZ i | None => VPanic end
+                 | None => VPanic end
+               else VBad
+           | None => VBad end
+       | _ => VBad end;
+     op_spec := fun_spec (fun a => match a with
+       | [VZ T; s; VZ from] => match as_zs s with
+           | Some s => VZ (spec_rank T (c03_h T) (c03_key_node T s from))
+           | None => VBad end
+       | _ => VBad end) |}.
+
 Definition ops_C03 : list opdef := [
   (* any node: (index, has) *)
   op_loose "bmtree.PathToIndexLoose" false;
   op_loose "bmtree.PathToIndexLoose/debug" true;
   (* a node on a stored level: index *)
   op_strict "bmtree.PathToIndex" false;
-  op_strict "bmtree.PathToIndex/debug" true
+  op_strict "bmtree.PathToIndex/debug" true;
+  (* raw arguments, debug build: panic exactly outside the domain *)
+  op_raw_loose "bmtree.PathToIndexLoose/debug-raw";
+  op_raw_strict "bmtree.PathToIndex/debug-raw";
+  (* parent and child in one case: the child rule *)
+  op_child "bmtree.PathToIndexLoose/child" false;
+  op_child "bmtree.PathToIndexLoose/child/debug" true;
+  (* from a key to its index: PathOf, then PathToIndexLoose / PathToIndex *)
+  op_key_loose "bmtree.PathOf+PathToIndexLoose" false;
+  op_key_loose "bmtree.PathOf+PathToIndexLoose/debug" true;
+  op_key_strict "bmtree.PathOf+PathToIndex" false;
+  op_key_strict "bmtree.PathOf+PathToIndex/debug" true
 ].
